@@ -1,27 +1,29 @@
 ---------------------------- MODULE C08_InferImpl ----------------------------
 (* I-specification for C08: the unification machine of syntax/infertype.py AS CODED.   *)
 (*   state   : uf, reach  -- the two dictionaries over N internal type variables       *)
-(*             status     -- "ok" | "rejected" (TypeInferenceException) | "subst" |    *)
-(*                           "done" | "diverged"                                       *)
+(*             status     -- "ok" | "rejected" (TypeInferenceException) | "cyclic" (a  *)
+(*                           cycle-closing binding was accepted) | "subst" | "done" |  *)
+(*                           "diverged"                                                *)
 (*             calls      -- number of unify calls made                                *)
 (*             ty, rounds -- tyinst and pass counter of the final substitution loop    *)
 (*             bad        -- ghost: a successful unify call did not produce a unifier  *)
 (*   actions : Unify(A1, A2) for ALL pairs of types over {bool, fun[, list]} and the N *)
 (*             variables (every order of calls, every sharing pattern);                *)
-(*             Finish (end of infer(): with FinalOccursCheck a depth-first occurs check *)
-(*             on the bindings rejects a cyclic binding); SubstPass (one pass of the   *)
+(*             Finish (end of infer(): tyinst := uf); SubstPass (one pass of the       *)
 (*             `while has_repl` loop, exactly as coded: in place, in index order).     *)
-(*   CONSTANT FinalOccursCheck mirrors the code that is present; the check sets it     *)
-(*   from a behavioural probe of the real type_infer (harness/checks/c08.py).          *)
+(*   CONSTANT ExactOccursCheck mirrors the code that is present (FALSE = union() tests *)
+(*   the cached reach sets, as found; TRUE = it follows the current bindings); the     *)
+(*   check sets it from a behavioural probe of the real type_infer (checks/c08.py).    *)
 (*   Properties:                                                                       *)
-(*     AcyclicOrRejected : a cyclic binding is never accepted                          *)
+(*     AcyclicOrRejected : a cyclic binding is never accepted (later unify calls and   *)
+(*                         the final loop recurse / iterate forever on one)            *)
 (*     SubstTerminates   : the final loop needs at most N passes (variant: number of   *)
 (*                         unresolved levels), never "diverged"                        *)
 (*     SubstIsResolve    : the loop computes the full resolution of every variable     *)
 (*     UnifierOK         : every accepted call yields a unifier of its two arguments   *)
 (*                         that still respects all earlier bindings                    *)
 EXTENDS C08_InferAlgo
-CONSTANTS N, MaxCalls, WithList, FinalOccursCheck
+CONSTANTS N, MaxCalls, WithList, ExactOccursCheck
 
 IV == 0..(N - 1)
 Args == { Iv(k) : k \in IV } \cup {BoolT}
@@ -35,20 +37,20 @@ Init == /\ uf = [k \in 1..N |-> Iv(k - 1)] /\ reach = [k \in 1..N |-> {}]
         /\ status = "ok" /\ calls = 0 /\ ty = <<>> /\ rounds = 0 /\ bad = FALSE
 
 Cyclic == CyclicUf(uf)
+O == Opt(ExactOccursCheck, FALSE)
 UnifyCall(A1, A2) ==
   /\ status = "ok" /\ calls < MaxCalls
-  /\ LET s == Unify(St(uf, reach), A1, A2) IN
+  /\ LET s == Unify(St(uf, reach), A1, A2, O) IN
        /\ uf' = s.uf /\ reach' = s.reach
-       /\ status' = IF s.st = "ok" THEN "ok" ELSE "rejected"
+       /\ status' = IF s.st = "ok" THEN "ok" ELSE IF s.st = "cyc" THEN "cyclic" ELSE "rejected"
        /\ bad' = (bad \/ (s.st = "ok" /\ ~CyclicUf(s.uf) /\
                            (\/ Resolve(s.uf, A1) # Resolve(s.uf, A2)
                             \/ \E k \in 1..N : Resolve(s.uf, Iv(k - 1)) # Resolve(s.uf, uf[k]))))
   /\ calls' = calls + 1 /\ UNCHANGED <<ty, rounds>>
 
-\* end of infer(): optional occurs check, then tyinst := uf
+\* end of infer(): tyinst := uf
 Finish ==
-  /\ status = "ok"
-  /\ IF FinalOccursCheck /\ Cyclic THEN status' = "rejected" /\ ty' = ty ELSE status' = "subst" /\ ty' = uf
+  /\ status = "ok" /\ status' = "subst" /\ ty' = uf
   /\ UNCHANGED <<uf, reach, calls, rounds, bad>>
 
 \* one pass of:  for i in range(num_internal): T = tyinst[i]; if T has a bound internal variable: tyinst[i] = T.subst(tyinst)
@@ -69,10 +71,11 @@ Next == (\E A1 \in Types, A2 \in Types : UnifyCall(A1, A2)) \/ Finish \/ SubstPa
 Spec == Init /\ [][Next]_vars
 
 TypeOK == /\ Len(uf) = N /\ Len(reach) = N /\ \A k \in 1..N : reach[k] \subseteq IV
-          /\ status \in {"ok", "rejected", "subst", "done", "diverged"}
+          /\ status \in {"ok", "rejected", "cyclic", "subst", "done", "diverged"}
 \* flatness of the union-find: an entry is a self-representative, an alias of one, or a proper binding
 Flat == status = "ok" => \A k \in 1..N : IsIv(uf[k]) => uf[IvIdx(uf[k]) + 1] = uf[k]
-AcyclicOrRejected == status \in {"subst", "done", "diverged"} => ~Cyclic
+\* (the second conjunct cross-checks the incremental detection in Union against the whole binding graph)
+AcyclicOrRejected == status # "cyclic" /\ (status \in {"ok", "subst", "done", "diverged"} => ~Cyclic)
 SubstTerminates == status # "diverged"
 SubstIsResolve == status = "done" => \A k \in 1..N : ty[k] = Resolve(uf, Iv(k - 1))
 UnifierOK == ~bad
